@@ -16,7 +16,9 @@ TARGETS = ['selfies/grammar_rules.py::next_atom_state',
            'selfies/utils/smiles_utils.py::smiles_to_bond',
            'selfies/decoder.py::_form_rings_bilocally',
            'selfies/grammar_rules.py::process_branch_symbol',
-           'selfies/grammar_rules.py::process_ring_symbol']
+           'selfies/grammar_rules.py::process_ring_symbol',
+           'selfies/grammar_rules.py::process_atom_symbol',
+           'selfies/grammar_rules.py::_process_atom_selfies_no_cache']
 EXPLANATION = (
     "Mixed. PROVED (deductive, all inputs): the leaf rules of the derivation equal the documented formulas - "
     "next_atom_state (mu = min(beta, alpha, i), terminal iff alpha-mu = 0), next_branch_state (n = min(i-1, M), j = i-n), "
